@@ -40,13 +40,12 @@ def _find(fb, prefix):
     return fs[0] if len(fs) == 1 else None
 
 
-def c15_5(ctx):
+def c15_5(ctx, R="C15.5"):
     """every (pk, msg) pair contributes exactly one factor on every verification path: the cached verifier maps the
     caller's iterator 1:1 (no filter / dedup / skip), the folds multiply on every iteration, the closure returns a pairing on
     both the hit and the miss branch"""
     from .. import apnf
     from .. import paths as P
-    R = "C15.5"
     fb = ctx.fb
     f = _find(fb, "chia_bls::bls_cache::BlsCache::aggregate_verify")
     if f:
